@@ -135,18 +135,32 @@ class PropertyRun:
             else:
                 self.covers['not_refuted'] += 1
         # failed obligations -> counter-model -> replay
+        # (bounded effort: stop after 3 confirmed violations / 10 attempts / 150 s; the rest is listed)
+        t_open = time.time()
+        attempts = 0
+        self.open_not_examined = 0
         for case, res, vs in self.results:
             for v in vs:
-                if v.status == 'unsat':
+                if v.status == 'unsat' or v.ob.kind == 'hint':
                     continue
+                confirmed = sum(1 for r in self.violations if r.get('kind') == 'obligation+replay')
+                if confirmed >= 3 or attempts >= 10 or time.time() - t_open > 150:
+                    self.open_not_examined += 1
+                    continue
+                attempts += 1
                 self.handle_open_obligation(case, res, v)
+        if self.open_not_examined:
+            msg = '%d further undischarged obligations not examined (effort cap)' % self.open_not_examined
+            self.notes.append(msg)
+            if not self.violations:
+                self.undecided.append({'function': '*', 'reason': msg})
 
     def handle_open_obligation(self, case, res, v):
         model = v.model
         how = 'solver model (complete query)'
         if model is None:
             try:
-                model = solve.find_counterexample(v.ob, N=3)
+                model = solve.find_counterexample(v.ob, N=3, timeout_ms=8000)
                 how = 'counter-model of the VC with spec functions expanded for lengths <= 3'
             except Exception as e:
                 model = None
@@ -243,8 +257,10 @@ class PropertyRun:
     # -------------------------------------------------------------- evidence
     def finish(self):
         wall = time.time() - self.t0
-        n_obl = sum(len(vs) for _, _, vs in self.results)
+        # proof-step hints count only when discharged (an undischarged hint is simply not used)
+        n_obl = sum(1 for _, _, vs in self.results for v in vs if v.ob.kind != 'hint' or v.status == 'unsat')
         n_dis = sum(1 for _, _, vs in self.results for v in vs if v.status == 'unsat')
+        n_hint_unused = sum(1 for _, _, vs in self.results for v in vs if v.ob.kind == 'hint' and v.status != 'unsat')
         backends = {}
         solver_s = 0.0
         for _, _, vs in self.results:
@@ -291,6 +307,8 @@ class PropertyRun:
             'solver_s': round(solver_s, 2),
             'float_model': getattr(self.prop, 'FLOAT_MODEL', 'R (floats as reals)'),
             'vacuity': getattr(self, 'covers', {}),
+            'proof_step_hints_not_discharged': n_hint_unused,
+            'notes': self.notes,
             'undecided': self.undecided,
             'bounded': self.bounded,
             'known_findings_matched': [k['what'] for k in self.known],
